@@ -474,6 +474,14 @@ def _build_carriers():  # pylint: disable=too-many-locals,too-many-statements
         _enum_lookup(TlsCipherSuite), lambda o: o.cipher_suite, all_members=True, thorough_only=True)
     add('compression-method@TlsHandshakeServerHello', sub.TlsHandshakeServerHello, [('server_hello', SERVER_HELLO)],
         41, 1, _enum_lookup(TlsCompressionMethod), lambda o: o.compression_method, all_members=True)
+    # HelloRetryRequest as the library models it (handshake type 6, the fixed RFC 8446 4.1.3 random, empty session id)
+    hello_retry = _h('06 000026 0303 cf21ad74e59a6111be1d8c021e65b891c2a211167abb8c5e079e09e2c8a8339c 00 002f 00')
+    add('compression-method@TlsHandshakeHelloRetryRequest', sub.TlsHandshakeHelloRetryRequest, [('hrr', hello_retry)],
+        41, 1, _enum_lookup(TlsCompressionMethod), lambda o: o.compression_method, all_members=True)
+    add('cipher-suite@TlsHandshakeHelloRetryRequest', sub.TlsHandshakeHelloRetryRequest, [('hrr', hello_retry)], 39, 2,
+        _enum_lookup(TlsCipherSuite), lambda o: o.cipher_suite, all_members=True, thorough_only=True)
+    add('tls-version@TlsHandshakeHelloRetryRequest', sub.TlsHandshakeHelloRetryRequest, [('hrr', hello_retry)], 4, 2,
+        _enum_lookup(TlsVersion), lambda o: o.protocol_version.version, all_members=True, thorough_only=True)
     add('named-group@TlsKeyShareEntry', ext.TlsKeyShareEntry, [('entry', _h('001d 0001 aa'))], 0, 2,
         _enum_lookup(TlsNamedCurve), lambda o: o.group, all_members=True, thorough_only=True)
     add('named-group@TlsExtensionKeyShareClientHelloRetry', ext.TlsExtensionKeyShareClientHelloRetry,
@@ -823,7 +831,9 @@ def _build_name_lists():  # pylint: disable=too-many-locals
 
     def opaque_list(length_width):
         def encode(names):
-            body = b''.join(bytes([len(name.encode('utf-8'))]) + name.encode('utf-8') for name in names)
+            # lone surrogates (U+DC80..U+DCFF) stand for the raw bytes 0x80..0xff: names that are not valid UTF-8
+            raw = [name.encode('utf-8', 'surrogateescape') for name in names]
+            body = b''.join(bytes([len(item)]) + item for item in raw)
             return (len(body).to_bytes(length_width, 'big') if length_width else b'') + body
         return encode
     lists.append(_NameList('TlsProtocolNameList', ext.TlsProtocolNameList,
@@ -1251,6 +1261,11 @@ def _shard_strings(job):  # pylint: disable=too-many-locals,too-many-branches
             strangers = ['x-unknown@example.org', 'zz']
             for name in names:
                 strangers += _near_misses(name, False)
+            if entry.name.startswith('Tls'):
+                # a registered name with one byte that is not valid UTF-8 before, inside or after it: a decoder that
+                # drops what it cannot decode takes it for the registered name
+                for name in names:
+                    strangers += [name + '\udcff', '\udcc0' + name, name[:1] + '\udcfe' + name[1:]]
             strangers = [text for text in dict.fromkeys(strangers)
                          if text not in entry.members and ',' not in text and text.strip() == text]
             for text in strangers:
